@@ -1900,18 +1900,19 @@ class QuadraticForm(Functional):
 
         if self.vector is None:
             # Handle trivial case separately
-            return QuadraticForm(operator=self.operator.inverse,
+            return QuadraticForm(operator=0.25 * self.operator.inverse,
                                  constant=-self.constant)
         else:
-            # Compute the needed variables
+            # Compute the needed variables. The conjugate is
+            # 1/4 * <(x - b), A^-1 (x - b)> - c
             opinv = self.operator.inverse
             vector = -opinv.adjoint(self.vector) - opinv(self.vector)
-            constant = self.vector.inner(opinv(self.vector)) - self.constant
+            constant = self.vector.inner(opinv(self.vector))
 
             # Create new quadratic form
-            return QuadraticForm(operator=opinv,
-                                 vector=vector,
-                                 constant=constant)
+            return QuadraticForm(operator=0.25 * opinv,
+                                 vector=0.25 * vector,
+                                 constant=0.25 * constant - self.constant)
 
 
 class NuclearNorm(Functional):
